@@ -29,6 +29,8 @@ func (nopLogger) Debug(string, ...any) {}
 
 // TaskSpec is one task of a generated cache-model program.
 type TaskSpec struct {
+	// IdentsFirst: the task dependencies are written in front of the file dependencies
+	IdentsFirst bool `json:"idents_first,omitempty"`
 	Name  string   `json:"name"`
 	Files []string `json:"files,omitempty"` // literal file dependencies (relative)
 	Globs []string `json:"globs,omitempty"`
@@ -49,6 +51,8 @@ type FileWrite struct {
 
 // Step is one action of a history.
 type Step struct {
+	// keep (not part of the case): when set, the loaded SpokFile is kept there and used again by the next run
+	keep **file.SpokFile
 	// Cwd (run steps): the working directory of the process while spok runs — one of three scratch
 	// directories beside the project. Where spok is started from has no bearing on the project's cache.
 	Cwd     int            `json:"cwd,omitempty"`
@@ -91,7 +95,11 @@ func (c CacheCase) Source() string {
 		for _, g := range t.Globs {
 			args = append(args, `"`+g+`"`)
 		}
-		args = append(args, t.Deps...)
+		if t.IdentsFirst {
+			args = append(append([]string(nil), t.Deps...), args...)
+		} else {
+			args = append(args, t.Deps...)
+		}
 		fmt.Fprintf(&b, "task %s(%s) {\n", t.Name, strings.Join(args, ", "))
 		for i := 0; i < t.NCmds; i++ {
 			fmt.Fprintf(&b, "    run %s %d\n", t.Name, i)
@@ -223,9 +231,17 @@ func doRun(root, src string, st Step, onStart ...func(string)) runResult {
 	if err != nil {
 		return runResult{err: fmt.Errorf("harness: generated spokfile does not parse: %w", err), rec: rec}
 	}
-	sf, err := file.New(tree, root, nopLogger{})
-	if err != nil {
-		return runResult{err: fmt.Errorf("harness: generated spokfile does not load: %w", err), rec: rec}
+	var sf *file.SpokFile
+	if st.keep != nil && *st.keep != nil {
+		sf = *st.keep // the same loaded spokfile is run again (a long-lived caller of the API)
+	} else {
+		sf, err = file.New(tree, root, nopLogger{})
+		if err != nil {
+			return runResult{err: fmt.Errorf("harness: generated spokfile does not load: %w", err), rec: rec}
+		}
+		if st.keep != nil {
+			*st.keep = sf
+		}
 	}
 	cwd := filepath.Join(filepath.Dir(root), fmt.Sprintf("started-in-%d", st.Cwd))
 	if err := os.MkdirAll(cwd, 0o755); err == nil {
